@@ -343,7 +343,12 @@ class Ref:
     def resolve(self, rv, name):
         if "." in name:
             rel, nm = name.split(".", 1)
-            idx = [i for i, c in enumerate(rv.cols) if c.name == nm and c.rel == rel]
+            split = getattr(rv, "split", None)
+            if rel in ("this", "that") and split is not None:
+                rng = range(0, split) if rel == "this" else range(split, len(rv.cols))
+                idx = [i for i in rng if rv.cols[i].name == nm]
+            else:
+                idx = [i for i, c in enumerate(rv.cols) if c.name == nm and c.rel == rel]
         else:
             idx = [i for i, c in enumerate(rv.cols) if c.name == name]
             if len(idx) > 1:
@@ -663,6 +668,7 @@ class Ref:
         for i, a in enumerate(left.rows):
             for j, b in enumerate(right.rows):
                 tmp = RelVal(cols, [Row(T, a.cells + b.cells)], None)
+                tmp.split = len(left.cols)
                 c = self.join_cond(tmp, t.cond, left, right)
                 m = band(a.present, b.present, c)
                 match[i][j] = m
